@@ -215,6 +215,87 @@ pub async fn run(out: &mut Out) {
         }
         out.extra.insert("node_global_state_probes".into(), json!(globals));
     }
+    // configuration as input: shard counts incl. 0, non-powers of two, the maximum and beyond
+    // (clamped to 1..=256), adaptive features on, and PerformanceConfig instances with a response
+    // pool of capacity 1 — a short session must answer like one shard
+    {
+        use crate::c03::new_state_perf;
+        use redis_sim::io::simulation::SimulationContext;
+        use redis_sim::production::{ShardConfig, ShardedActorState};
+        let session = |k: usize| -> Vec<Command> {
+            let mut v = Vec::new();
+            for i in 0..k {
+                v.push(Command::set(format!("cfg{}", i), sd("v")));
+            }
+            v.push(Command::DbSize);
+            v.push(Command::MGet((0..k).map(|i| format!("cfg{}", i)).collect()));
+            v.push(Command::Del((0..k / 2).map(|i| format!("cfg{}", i)).collect()));
+            v.push(Command::DbSize);
+            v.push(Command::Exists((0..k).map(|i| format!("cfg{}", i)).collect()));
+            v
+        };
+        let mut reference = Vec::new();
+        for c in session(24) {
+            reference.push(format!("{:?}", st1.execute(&c).await));
+        }
+        st1.execute(&Command::FlushAll).await;
+        let mut cfgs: BTreeMap<String, String> = BTreeMap::new();
+        for want in [0usize, 1, 2, 3, 5, 7, 64, 256, 1000] {
+            let ctx = std::sync::Arc::new(SimulationContext::new(0, redis_sim::buggify::FaultConfig::disabled()));
+            let st = ShardedActorState::with_config_and_time_source(ShardConfig::with_shards(want), redis_sim::io::SimulatedTimeSource::new_default(ctx));
+            let got = st.num_shards();
+            let mut r = Vec::new();
+            for c in session(24) {
+                r.push(format!("{:?}", st.execute(&c).await));
+            }
+            let pooled = format!("{:?}", st.pooled_fast_get(bytes::Bytes::from_static(b"cfg20")).await);
+            let ok = got == want.clamp(1, 256) && r == reference && pooled.contains("118");
+            cfgs.insert(format!("with_shards({})", want), format!("num_shards = {}, session {}", got, if ok { "equals one shard" } else { "DIFFERS" }));
+            if !ok {
+                out.violation("C03:config:shard-count", &format!("ShardConfig::with_shards({}): num_shards() = {}, session replies {:?} (one shard: {:?})", want, got, r, reference), json!({"with_shards": want}));
+            }
+        }
+        {
+            let ctx = std::sync::Arc::new(SimulationContext::new(0, redis_sim::buggify::FaultConfig::disabled()));
+            let st = ShardedActorState::with_config_and_time_source(ShardConfig::with_shards(4).with_adaptive(), redis_sim::io::SimulatedTimeSource::new_default(ctx));
+            let mut r = Vec::new();
+            for c in session(24) {
+                r.push(format!("{:?}", st.execute(&c).await));
+            }
+            st.observe_access("cfg1", true);
+            let _ = st.get_rf_for_key("cfg1").await;
+            let _ = st.get_hot_keys().await;
+            let _ = st.check_scaling().await;
+            st.update_shard_metrics(0, 10, 1.0);
+            let _ = st.get_adaptive_info().await;
+            let ok = r == reference && st.is_adaptive_enabled() && st.adaptive_handle().is_some();
+            cfgs.insert("with_shards(4).with_adaptive()".into(), if ok { "session equals one shard; metrics calls do not disturb it".into() } else { "DIFFERS".into() });
+            if !ok {
+                out.violation("C03:config:adaptive", "adaptive features change the replies of a plain session", json!({"replies": r}));
+            }
+        }
+        for (cap, pre) in [(1usize, 0usize), (1, 1), (2, 1), (256, 64), (0, 0), (4, 5)] {
+            match new_state_perf(4, cap, pre) {
+                None => {
+                    cfgs.insert(format!("PerformanceConfig pool capacity={} prewarm={}", cap, pre), "rejected by validate()".into());
+                }
+                Some((st, _)) => {
+                    let mut ok = true;
+                    for i in 0..40 {
+                        let k = bytes::Bytes::from(format!("pp{}", i % 7));
+                        let v = bytes::Bytes::from(format!("v{}", i));
+                        ok &= format!("{:?}", st.pooled_fast_set(k.clone(), v.clone()).await).contains("OK");
+                        ok &= st.pooled_fast_get(k).await == RespValue::BulkString(Some(v.to_vec()));
+                    }
+                    cfgs.insert(format!("PerformanceConfig pool capacity={} prewarm={}", cap, pre), if ok { "40 pooled SET/GET rounds answer their own requests".into() } else { "WRONG REPLY".into() });
+                    if !ok {
+                        out.violation("C03:config:response-pool", &format!("response pool capacity={} prewarm={}: a pooled request received a reply that is not its own", cap, pre), json!({"capacity": cap, "prewarm": pre}));
+                    }
+                }
+            }
+        }
+        out.extra.insert("configuration_probes".into(), json!(cfgs));
+    }
     out.extra.insert("route_probe_coverage(variant → keys probed, 1 vs 4 shards after a fast-path write)".into(), json!(cov));
     out.extra.insert("route_probe_keys".into(), json!(keys));
 }
